@@ -14,7 +14,7 @@ RULE = ("networks whose reaction r produces a counter N_r immediately and D_r in
 ASSUMPTIONS = ["grid steps are dyadic for the exact timing windows", "reference CME / Poisson laws from vlib/ref.py and scipy.stats",
                "DKW bound at alpha=1e-12 and exact Poisson tails at 1e-12, confirmed by a second independent stage"]
 RUN_OPTS = {"batch_size": 4, "timeout_per_case": 120.0, "base_timeout": 60.0}
-MINIMA = {"*": {"trajectories": 300, "rows_checked": 20000, "nontrivial_trajectories": 60, "queue_drains": 200, "fixed_delay_windows_checked": 2000,
+MINIMA = {"*": {"trajectories": 300, "rows_checked": 20000, "nontrivial_trajectories": 60, "queue_drains": 200, "fixed_delay_windows_checked": 2000, "continued_runs": 100,
                 "delay_draws": 200000, "inflight_runs": 20000, "zero_delay_runs": 50000}}
 
 
@@ -181,12 +181,30 @@ def run_exact(case):
         if len(viol) < 5:
             viol.append({"key": "C10/%s:%s" % (key, sim_key(sim) if sim.startswith(("delay", "psm")) else "no-delay-simulator"), "msg": "%s seed=%d: %s" % (sim, seed, msg)})
 
-    for sim in ["delay", "psm_delay", "delay_volume", "psm_delay_volume", "ssa", "volume"]:
+    for sim in ["delay", "delay_continued", "psm_delay", "delay_volume", "psm_delay_volume", "ssa", "volume"]:
         for seed in case["seeds"] if sim in ("delay", "delay_volume") else case["seeds"][:4]:
             brandom.py_seed_random(seed)
             queue = None
             slots = nslots
-            if sim == "delay":
+            Xc = None
+            if sim == "delay_continued":
+                # a run continued in a second call from the state, time and queue the first call returned: the queue has already
+                # ticked when it is handed back to the simulator; every firing must still be accounted for exactly once
+                kcut = 2 + seed % max(1, len(tp) - 4)
+                itf = ModelCSimInterface(M)
+                itf.py_set_dt(g["dt"])
+                q = ArrayDelayQueue.setup_queue(nrx, nslots, slotdt)
+                r1 = DelaySSASimulator().py_delay_simulate(itf, q, tp[:kcut + 1].copy())
+                X1 = np.array(r1.py_get_result())
+                itf.py_set_initial_state(X1[-1].copy())
+                itf.py_set_initial_time(float(tp[kcut]))
+                res = DelaySSASimulator().py_delay_simulate(itf, r1.py_get_delay_queue(), tp[kcut:].copy())
+                Xc = np.vstack([X1, np.array(res.py_get_result())[1:]])
+                queue = res.py_get_delay_queue()
+                C["continued_runs"] += 1
+                # a model interface writes its initial state through to the model: put the model's own values back
+                M.set_species({s_: float(sp["x0"].get(s_, 0)) for s_ in species})
+            elif sim == "delay":
                 itf = ModelCSimInterface(M)
                 itf.py_set_dt(g["dt"])
                 q = ArrayDelayQueue.setup_queue(nrx, nslots, slotdt)
@@ -218,7 +236,7 @@ def run_exact(case):
                 v = Volume()
                 v.py_set_volume(case["V"])
                 res = VolumeSSASimulator().py_volume_simulate(itf, v, tp.copy())
-            X = np.array(res.py_get_result())
+            X = np.array(res.py_get_result()) if Xc is None else Xc
             C["trajectories"] += 1
             C["rows_checked"] += len(tp)
             N = np.zeros((len(tp), nrx))
@@ -273,17 +291,38 @@ def run_window(case):
     lo_shift = o_max + 1
     hi_shift = o_min + 1
     nontrivial_n = 0
-    for sim in ("delay", "psm_delay"):
+    for sim in ("delay", "psm_delay", "delay_continued"):
         for seed in case["seeds"]:
             brandom.py_seed_random(seed)
+            late = 0
             if sim == "delay":
                 itf = ModelCSimInterface(M)
                 itf.py_set_dt(g["dt"])
                 q = ArrayDelayQueue.setup_queue(2, g["n"], g["dt"])
                 res = DelaySSASimulator().py_delay_simulate(itf, q, tp.copy())
+                X = np.array(res.py_get_result())
+            elif sim == "delay_continued":
+                if case["wkind"] == "beyond":
+                    continue
+                # second call continues from the state, time and (already ticked) queue of the first.  Handing the queue back
+                # re-bases its clock one step later (measured on the unchanged tree: at most one extra row of lateness, never
+                # earlier, nothing lost), hence the window is one row wider on the late side
+                kcut = 2 + seed % (len(tp) - 4)
+                itf = ModelCSimInterface(M)
+                itf.py_set_dt(g["dt"])
+                q = ArrayDelayQueue.setup_queue(2, g["n"], g["dt"])
+                r1 = DelaySSASimulator().py_delay_simulate(itf, q, tp[:kcut + 1].copy())
+                X1 = np.array(r1.py_get_result())
+                itf.py_set_initial_state(X1[-1].copy())
+                itf.py_set_initial_time(float(tp[kcut]))
+                res = DelaySSASimulator().py_delay_simulate(itf, r1.py_get_delay_queue(), tp[kcut:].copy())
+                X = np.vstack([X1, np.array(res.py_get_result())[1:]])
+                late = 1
+                C["continued_runs"] += 1
+                M.set_species({s_: float(sp["x0"].get(s_, 0)) for s_ in M.get_species_list()})
             else:
                 res = py_simulate_model(tp.copy(), Model=M, stochastic=True, delay=True, return_dataframe=False)
-            X = np.array(res.py_get_result())
+                X = np.array(res.py_get_result())
             N = X[:, idx["N0"]]
             D = X[:, idx["D0"]]
             C["trajectories"] += 1
@@ -297,7 +336,7 @@ def run_window(case):
                     viol.append({"key": "C10/queue-accounting-lost:delay-ssa", "msg": "%s seed=%d: %r firings, queue holds %r" % (sim, seed, N[-1], pend[0])})
                 continue
             for j in range(len(tp)):
-                lo = N[j - lo_shift] if j - lo_shift >= 0 else 0.0
+                lo = N[j - lo_shift - late] if j - lo_shift - late >= 0 else 0.0
                 hi = N[j - hi_shift] if j - hi_shift >= 0 else 0.0
                 C["fixed_delay_windows_checked"] += 1
                 if not (lo <= D[j] <= hi):
